@@ -107,6 +107,8 @@ package updown
 //@     do-end if !resolved(FR.Seq[i]) { if !gAmb { gAmb = true; gStart = i } } else { if gAmb { gAmb = false; gRuns++; gLastEnd = i } }
 //@   after append#4: assert [range.mid] gAmb && ambs[len(ambs)-2] == gStart + 1 && ambs[len(ambs)-1] == i && resolved(FR.Seq[i]) && forall(k, gStart, i, !resolved(FR.Seq[k])) && (gStart == 0 || resolved(FR.Seq[gStart-1])) && implies(gRuns > 0, gStart + 1 >= gLastEnd + 2)
 //@   after append#6: assert [range.end] gAmb && ambs[len(ambs)-2] == gStart + 1 && ambs[len(ambs)-1] == len(FR.Seq) && forall(k, gStart, len(FR.Seq), !resolved(FR.Seq[k])) && (gStart == 0 || resolved(FR.Seq[gStart-1]))
+//@   # C09: snpsSorted (what whichWay binary-searches) is the SNP list in ascending string order: sorted, same length, every SNP present
+//@   before send#2: assert [line.sorted] sorted(udLine.snpsSorted) && len(udLine.snpsSorted) == len(udLine.snps) && forall(j, 0, len(udLine.snps), 0 <= sortinv(j) && sortinv(j) < len(udLine.snps) && udLine.snpsSorted[sortinv(j)] == udLine.snps[j])
 //@   before send#2: assert [line.counts] udLine.snpCount == count(k, 0, len(FR.Seq), resolved(FR.Seq[k]) && (refSeq[k] & FR.Seq[k]) < 16) && udLine.ambCount == count(k, 0, len(FR.Seq), !resolved(FR.Seq[k])) && len(udLine.snps) == udLine.snpCount && len(udLine.snpsPos) == udLine.snpCount && len(udLine.ambs) == 2 * ite(gAmb, gRuns + 1, gRuns)
 //@   before send#2: assert [line.snps] forall(j, 0, len(FR.Seq), implies(resolved(FR.Seq[j]) && (refSeq[j] & FR.Seq[j]) < 16, udLine.snps[count(k, 0, j, resolved(FR.Seq[k]) && (refSeq[k] & FR.Seq[k]) < 16)] == DA[refSeq[j]] + itoa(j+1) + DA[FR.Seq[j]] && udLine.snpsPos[count(k, 0, j, resolved(FR.Seq[k]) && (refSeq[k] & FR.Seq[k]) < 16)] == j+1))
 //@   ensures len(sent(cUDs)) == len(recv(cFR))
@@ -135,6 +137,7 @@ package updown
 //@     invariant [c09.positions] freshslice(snpPos) && len(record[1]) > 0 && len(snps) == splitn(record[1], "|") && forall(j, 0, len(snps), snps[j] == splitat(record[1], "|", j)) && forall(j, 0, range_i, snpPos[j] == atoi(snps[j][1:len(snps[j])-1]))
 //@   # C09: what a CSV row becomes: id, index, counts, and the SNP list = the '|'-separated tokens of the SNPs field (none for an
 //@   # empty field) with positions parsed out of the tokens
+//@   before append#1: assert [c09.row.sorted] sorted(udL.snpsSorted) && len(udL.snpsSorted) == len(udL.snps) && forall(j, 0, len(udL.snps), 0 <= sortinv(j) && sortinv(j) < len(udL.snps) && udL.snpsSorted[sortinv(j)] == udL.snps[j])
 //@   before append#1: assert [c09.row.fields] udL.id == record[0] && udL.idx == counter && udL.ambCount == amb_count && sameslice(udL.ambs, a)
 //@   before append#1: assert [c09.row.nosnps] implies(len(record[1]) == 0, len(udL.snps) == 0 && len(udL.snpsPos) == 0 && len(udL.snpsSorted) == 0)
 //@   before append#1: assert [c09.row.snps] implies(len(record[1]) > 0, len(udL.snps) == splitn(record[1], "|") && len(udL.snpsPos) == len(udL.snps) && len(udL.snpsSorted) == len(udL.snps) && forall(j, 0, len(udL.snps), udL.snps[j] == splitat(record[1], "|", j) && udL.snpsPos[j] == atoi(udL.snps[j][1:len(udL.snps[j])-1])))
@@ -151,6 +154,7 @@ package updown
 //@   loop 2:
 //@     invariant len(sent(cErr)) == 0 && len(sent(cReadDone)) == 0 && len(snpPos) == len(snps)
 //@     invariant [c09.positions] freshslice(snpPos) && len(record[1]) > 0 && len(snps) == splitn(record[1], "|") && forall(j, 0, len(snps), snps[j] == splitat(record[1], "|", j)) && forall(j, 0, range_i, snpPos[j] == atoi(snps[j][1:len(snps[j])-1]))
+//@   before send#7: assert [c09.row.sorted] sorted(udL.snpsSorted) && len(udL.snpsSorted) == len(udL.snps) && forall(j, 0, len(udL.snps), 0 <= sortinv(j) && sortinv(j) < len(udL.snps) && udL.snpsSorted[sortinv(j)] == udL.snps[j])
 //@   before send#7: assert [c09.row.fields] udL.id == record[0] && udL.ambCount == amb_count && sameslice(udL.ambs, a)
 //@   before send#7: assert [c09.row.nosnps] implies(len(record[1]) == 0, len(udL.snps) == 0 && len(udL.snpsPos) == 0 && len(udL.snpsSorted) == 0)
 //@   before send#7: assert [c09.row.snps] implies(len(record[1]) > 0, len(udL.snps) == splitn(record[1], "|") && len(udL.snpsPos) == len(udL.snps) && len(udL.snpsSorted) == len(udL.snps) && forall(j, 0, len(udL.snps), udL.snps[j] == splitat(record[1], "|", j) && udL.snpsPos[j] == atoi(udL.snps[j][1:len(udL.snps[j])-1])))
